@@ -17,7 +17,7 @@ PROPERTY = 'C04'
 RULE = ('Typed grammar restricted to the dense-time operators (arithmetic, comparisons, Boolean, once/historically/eventually/always/'
         'since/until bounded and unbounded) x piecewise-constant signals on a rational grid (quantum 1/4; thorough also 1/8, 1/2), '
         'break-points of different variables drawn independently (unaligned), 1-8 samples per variable; lanes main (t0=0), shifted '
-        '(t0>0, no variable-free predicate), long (bounds up to 24 cells, longer than the signals), arith, staircase (5-12 samples in long monotone runs under windows up to 16 cells), big (8-20 samples, three variables) and units (bounds with explicit units / the case restated in another default unit, machinery of C08). Oracle: grid reference R-ct; '
+        '(t0>0, no variable-free predicate), long (bounds up to 24 cells, longer than the signals), arith, staircase (5-12 samples in long monotone runs under windows up to 16 cells), big (8-20 samples, three variables) and units (bounds with explicit units / the case restated in another default unit, machinery of C08) and reevaluate (one specification object evaluated repeatedly on the same sample list objects, edited in place by the caller between the calls). Oracle: grid reference R-ct; '
         'the returned sample list must have non-decreasing finite time stamps, start at t0 and, read as a right-continuous step '
         'function, equal R-ct at every cell start, cell midpoint and output time stamp of [t0, earliest last sample]. '
         'Non-trivial = >=1 temporal operator and (>=2 variables with unaligned break-points or a bounded operator); '
@@ -119,6 +119,82 @@ def attribute(f, sig, q):
     return 'nested'
 
 
+@st.composite
+def reevaluate_cases(draw, tier):
+    """One specification object evaluated several times on the caller's own sample lists, which are edited in place between
+    the calls (a value of an interior, first or last sample changes; the list objects stay the same)."""
+    c = draw(ct_cases(_profile(tier, max_depth=3), tier, max_samples=6, min_samples=2))
+    edits = []
+    for _ in range(draw(st.integers(1, 3))):
+        v = draw(st.sampled_from(c['vars']))
+        i = draw(st.integers(0, len(c['signals'][v]) - 1))
+        edits.append([v, i, draw(F.values())])
+    c['edits'] = edits
+    return c
+
+
+def check_reevaluate(case):
+    f = from_json(case['formula'])
+    q = case_q(case)
+    sig = norm_signals(case)
+    used = F.fvars(f)
+    labels = feature_labels(f) + ['reevaluate']
+    if not used:
+        return DISCARD('no-variable', labels)
+    sig = {v: [list(s) for s in sig[v]] for v in case['vars'] if v in used}
+    feed = list(sig)
+    text = dense_text(f, q)
+    from ..monitors import build, exc_outcome
+    try:
+        spec = build('ct_off', text, feed)
+    except Exception as e:  # noqa
+        return DISCARD('build-raises(C14/C17):' + type(e).__name__, labels)
+    sig_t = to_time(sig, q)                     # the caller's lists: kept and edited in place
+    args = [[v, sig_t[v]] for v in feed]
+    hist = []
+    changed = 0
+    for step in range(len(case['edits']) + 1):
+        if step > 0:
+            v, i, x = case['edits'][step - 1]
+            if v not in sig or i >= len(sig[v]):
+                continue
+            if sig[v][i][1] != float(x):
+                changed += 1
+            sig[v][i][1] = float(x)
+            sig_t[v][i][1] = float(x)
+        try:
+            K0, Kend, ref = ct_cells(f, {v: [tuple(s) for s in sig[v]] for v in feed})
+        except Undefined:
+            return DISCARD('undefined', labels)
+        try:
+            out = spec.evaluate(*args)
+        except Exception as e:  # noqa
+            o = exc_outcome(e)
+            if step == 0:
+                return DISCARD('first-evaluation-raises(main lanes)', labels)
+            return FAIL('reevaluate-raises:%s' % o[1], 'spec: %s\nevaluations so far: %s\nevaluation %d on %s raised %s: %s at %s' % (
+                text, hist, step, sig_t, o[1], o[3], o[4]), labels)
+        hist.append({v: [list(s) for s in sig_t[v]] for v in feed})
+        bad = check_shape(out) or (not out) or compare_ct(out, K0, Kend, ref, q, needs_tolerance(f))
+        if bad:
+            if step == 0:
+                return DISCARD('first-evaluation-differs(main lanes)', labels)
+            return FAIL('reevaluate-differs', 'spec: %s\nsignals of the evaluations (same list objects, edited in place): %s\nevaluation %d returned %r\n%r\nreference cells from %d: %s' % (
+                text, hist, step, out, bad, K0, ref[:Kend - K0 + 1]), labels)
+    return PASS(changed >= 1 and F.n_temporal(f) >= 1, labels)
+
+
+def cand_reevaluate(case):
+    if len(case['edits']) > 1:
+        for i in range(len(case['edits'])):
+            yield dict(case, edits=case['edits'][:i] + case['edits'][i + 1:])
+    for c in ct_candidates(case):
+        c = dict(c)
+        c['edits'] = [e for e in case['edits'] if e[0] in c['signals'] and e[1] < len(c['signals'][e[0]])]
+        if c['edits']:
+            yield c
+
+
 def _units_lane(tier):
     from . import C08
     return C08.dense_cases(tier)
@@ -162,6 +238,7 @@ LANES = [
     Lane('big', big_cases, check, 300, 5000, ct_candidates),
     Lane('staircase', lambda tier: staircase_cases(tier), check, 1500, 20000, ct_candidates),
     Lane('units', _units_lane, check_units, 800, 10000, None),
+    Lane('reevaluate', lambda tier: reevaluate_cases(tier), check_reevaluate, 800, 10000, cand_reevaluate),
     Lane('main', lambda tier: ct_cases(_profile(tier), tier), check, 3000, 50000, ct_candidates),
     # t0 > 0: unbounded operators only.  The suite pins bounded operators on a signal that starts after 0 to a result that
     # starts at 0 (test_once_bounded_3), the property text says "starts at the beginning of the common input domain":
